@@ -86,6 +86,9 @@ var catalogue = []catLine{
 	{`{"v":0.25,"msg":"nolevel"}`, `v=0.25 msg=nolevel`},
 	{`{"level":"warn","v":10,"msg":"w","arr":[1,2]}`, `level=warn v=10 msg=w`},
 	{`{"level":"info","v":2,"msg":"hello again","n":{"a":"x"}}`, `level=info v=2 msg="hello again" n_a=x`},
+	// several labels carry one value (also the stream label app="x"): a stage that matches by value must still match by name
+	{`{"level":"x","v":4,"msg":"x","n":{"a":"x"}}`, `level=x v=4 msg=x n_a=x`},
+	{`{"level":"info","v":6,"msg":"info","n":{"a":"info"}}`, `level=info v=6 msg=info n_a=info`},
 }
 
 func (s Stage) render() string {
@@ -105,6 +108,10 @@ func (s Stage) render() string {
 		}
 		return " | " + r
 	case "drop":
+		if s.Str != "" {
+			// drop name="value": the label is removed only where it has that value
+			return fmt.Sprintf(" | drop %s=%s", s.Names[0], strconv.Quote(s.Str))
+		}
 		return " | drop " + strings.Join(s.Names, ", ")
 	case "rename":
 		return fmt.Sprintf(" | label_format %s=%s", s.Label, s.Str)
@@ -314,7 +321,9 @@ func (p Prog) evalPipeline(in []refEntry) []refEntry {
 				keep = keep && s.keepLabels(e.labels)
 			case "drop":
 				for _, n := range s.Names {
-					delete(e.labels, n)
+					if s.Str == "" || e.labels[n] == s.Str {
+						delete(e.labels, n)
+					}
 				}
 			case "rename":
 				// label_format dst=src: dst takes the value of src (LogQL: "rename"); src stays addressable only in Loki >= 2.x docs as removed
@@ -565,6 +574,9 @@ func genC09(rt *rapid.T) C09Scenario {
 			}
 		case "drop":
 			st.Names = []string{rapid.SampledFrom([]string{"msg", "n_a", "level", "series"}).Draw(rt, l+".d")}
+			if rapid.IntRange(0, 2).Draw(rt, l+".dv?") == 0 {
+				st.Str = rapid.SampledFrom([]string{"x", "info", "hello", "s0"}).Draw(rt, l+".dv")
+			}
 		case "rename":
 			st.Label, st.Str = rapid.SampledFrom([]string{"lvl", "message"}).Draw(rt, l+".dst"), rapid.SampledFrom([]string{"level", "msg"}).Draw(rt, l+".src")
 		}
